@@ -85,21 +85,51 @@ def renorm (img out : Arr R) : Arr R :=
   let T := arrSum out
   { out with get := fun i j => out.get i j * S / T }
 
-/-- `lentil.detector.pixel(img, oversample)` -/
+/-- the renormalisation with the expression regenerated from a function's `return` statement -/
+def renormWith (e : R → R → R → R) (img out : Arr R) : Arr R :=
+  let S := arrSum img
+  let T := arrSum out
+  { out with get := fun i j => e (out.get i j) S T }
+
+section stages
+variable (K : Type) [Add K] [Mul K] [Zero K] [CxLike K R] [AbsLike K R]
+/-- the four stages the sources compose (each materialised once): `np.abs`, `np.fft.ifft2`, `np.fft.fft2` of the real image, `· * kernel` -/
+def stAbs (Y : Arr K) : Arr R := (absArr Y).force
+def stIfft2 (X : Arr K) : Arr K := ifft2 (R := R) X
+def stFft2 (img : Arr R) : Arr K := (fft2 (R := R) (toCx (K := K) img)).force
+def stMul (X : Arr K) (k : Arr R) : Arr K := (mulKernel X k).force
+end stages
+
+/-- `lentil.detector.pixel(img, oversample)`: kernel, composition and (absent) renormalisation as regenerated from the source -/
 def pixel (K : Type) [Add K] [Mul K] [Zero K] [CxLike K R] [AbsLike K R] (img : Arr R) (os : R) : Arr R :=
-  let out := blurCore K img (pixelKernel img.s0 img.s1 os)
-  if Gen.bwPixelRenorm then renorm img out else out
+  let out := Gen.bwPixelApply (stAbs (R := R) K) (stIfft2 (R := R) K) (stFft2 (R := R) K) (stMul (R := R) K) img (pixelKernel img.s0 img.s1 os)
+  if Gen.bwPixelRenorm then renormWith Gen.bwPixelRenormExpr img out else out
 
 /-- `lentil.convolvable.jitter(img, scale, pixelscale, oversample)` -/
 def jitter (K : Type) [Add K] [Mul K] [Zero K] [CxLike K R] [AbsLike K R] (img : Arr R) (scale pixelscale os : R) : Arr R :=
-  let out := blurCore K img (jitterKernel img.s0 img.s1 scale pixelscale os)
-  if Gen.bwJitterRenorm then renorm img out else out
+  let out := Gen.bwJitterApply (stAbs (R := R) K) (stIfft2 (R := R) K) (stFft2 (R := R) K) (stMul (R := R) K) img (jitterKernel img.s0 img.s1 scale pixelscale os)
+  if Gen.bwJitterRenorm then renormWith Gen.bwJitterRenormExpr img out else out
 
 /-- `lentil.convolvable.smear(img, distance, angle, pixelscale, oversample)` (angle in degrees, given) -/
 def smear (K : Type) [Add K] [Mul K] [Zero K] [CxLike K R] [AbsLike K R] (img : Arr R) (distance angleDeg pixelscale os : R) :
     Arr R :=
-  let out := blurCore K img (smearKernel img.s0 img.s1 distance angleDeg pixelscale os)
-  if Gen.bwSmearRenorm then renorm img out else out
+  let out := Gen.bwSmearApply (stAbs (R := R) K) (stIfft2 (R := R) K) (stFft2 (R := R) K) (stMul (R := R) K) img (smearKernel img.s0 img.s1 distance angleDeg pixelscale os)
+  if Gen.bwSmearRenorm then renormWith Gen.bwSmearRenormExpr img out else out
+
+/-- `smear(img, distance, angle=None, …)`: the direction is one `uniform(0, 2π)` draw `u ∈ [0, 1)` of NumPy's global generator; kernel
+as regenerated from the `angle is None` branch -/
+def smearKernelNone (s0 s1 : Int) (distance pixelscale os u : R) : Arr R :=
+  { s0 := (Gen.bwSmearKernelShape s0 s1).1, s1 := (Gen.bwSmearKernelShape s0 s1).2,
+    get := Gen.bwSmearKernelNone BlurLike.sinc BlurLike.exp RealLike.sqrt BlurLike.sin BlurLike.cos BlurLike.pi RealLike.ofInt
+      fftfreq s0 s1 distance pixelscale os u }
+def smearNone (K : Type) [Add K] [Mul K] [Zero K] [CxLike K R] [AbsLike K R] (img : Arr R) (distance pixelscale os u : R) : Arr R :=
+  let out := Gen.bwSmearApply (stAbs (R := R) K) (stIfft2 (R := R) K) (stFft2 (R := R) K) (stMul (R := R) K) img (smearKernelNone img.s0 img.s1 distance pixelscale os u)
+  if Gen.bwSmearRenorm then renormWith Gen.bwSmearRenormExpr img out else out
+
+/-- `detector.pixelate(img, oversample)`: output shape of `rescale(pixel(img, os), scale)` = `ceil(n · scale)` per axis, the scale as
+regenerated from the call (`1/oversample`); the interpolation itself (`scipy.ndimage.map_coordinates`, order 3) is not modelled -/
+def pixelateShape (ceil : R → Int) (s0 s1 : Int) (os : R) : Int × Int :=
+  (ceil (RealLike.ofInt s0 * Gen.bwPixelateScale RealLike.ofInt os), ceil (RealLike.ofInt s1 * Gen.bwPixelateScale RealLike.ofInt os))
 
 /-- `np.roll(img, (a, b), axis=(0, 1))`: `out[i, j] = img[(i - a) mod s0, (j - b) mod s1]` -/
 def roll {A : Type} (img : Arr A) (a b : Int) : Arr A :=
